@@ -37,7 +37,7 @@ def pick_world(rng):
         force += ["alternates"]
     if rng.random() < 0.5:
         force += ["composites"]
-    return world.gen_family(rng, force=force, forbid=("color", "dottedcircle", "math", "discrete_axis"),
+    return world.gen_family(rng, force=force, forbid=("color", "dottedcircle", "math", "discrete_axis", "explicit_default_layer"),
                             n_masters=rng.choice([2, 2, 2, 3, 3, 1]), max_glyphs=10)
 
 
